@@ -99,6 +99,7 @@ func propC08(c *Ctx) {
 	checkCachePerRoutine(c, "R8.6")
 	c.Rule("R8.5", "a log is dropped from a shared block only when the same log index is already attached", 2)
 	checkLogsAddDedup(c, "R8.5")
+	checkLogsMergedNotReplaced(c, "R8.5")
 
 	// ---- R8.2 -----------------------------------------------------------
 	c.Rule("R8.2", "the cached head is always a (number, hash) pair of one announced header", 5)
@@ -134,13 +135,69 @@ func propC08(c *Ctx) {
 						continue
 					}
 					n++
-					if fn != update && fn != nhGet {
+					// only NumHash's own methods write the pair …
+					recvOK := fn.Signature.Recv() != nil && repoNamedIs(fn.Signature.Recv().Type(), "jrpc2", "NumHash")
+					if !recvOK {
 						bad = append(bad, fnName(fn)+" at "+w.Pos(instrPos(ref)))
+						continue
+					}
+					// … and never one half of it alone: a write of the other field stands on the same path
+					other := fHash
+					if f == fHash {
+						other = fNum
+					}
+					paired := false
+					allInstrs(fn, func(in2 ssa.Instruction) {
+						fa2, ok := in2.(*ssa.FieldAddr)
+						if !ok {
+							return
+						}
+						if ff, _ := fieldOf(fa2); ff != other {
+							return
+						}
+						for _, ref2 := range *fa2.Referrers() {
+							w2 := false
+							switch y := ref2.(type) {
+							case *ssa.Store:
+								w2 = y.Addr == ssa.Value(fa2)
+							case ssa.CallInstruction:
+								if cal := staticCallee(y); cal != nil && cal.Name() == "Write" && len(y.Common().Args) > 0 && y.Common().Args[0] == ssa.Value(fa2) {
+									w2 = true
+								}
+							}
+							if w2 && (dominatesInstr(ref, ref2) || dominatesInstr(ref2, ref)) {
+								paired = true
+							}
+						}
+					})
+					if !paired {
+						bad = append(bad, fnName(fn)+" writes "+f.Name()+" without "+other.Name()+" at "+w.Pos(instrPos(ref)))
 					}
 				}
 			})
 		}
-		c.Check("R8.2", "who-may-write/NumHash."+f.Name(), f.Pos(), n > 0 && len(bad) == 0, fmt.Sprintf("%d writes, only in NumHash.update and NumHash.get's expiry reset; offenders: %v", n, bad))
+		c.Check("R8.2", "who-may-write/NumHash."+f.Name(), f.Pos(), n > 0 && len(bad) == 0, fmt.Sprintf("%d writes, all in methods of NumHash and always together with the other half of the pair; offenders: %v", n, bad))
+	}
+	// the hash handed to a caller is a copy: the caller keeps it across the
+	// next update, which rewrites the cached bytes in place
+	{
+		nRet := 0
+		for _, r := range returnsOf(nhGet) {
+			vals := returnValues(r)
+			if len(vals) != 3 {
+				continue
+			}
+			if _, isSl := vals[1].Type().Underlying().(*types.Slice); !isSl || isNilConst(vals[1]) {
+				continue
+			}
+			nRet++
+			alias := sliceAliases(vals[1], func(v ssa.Value) bool {
+				lf, _ := loadedField(v)
+				return lf == fHash
+			}, 0)
+			c.Check("R8.2", fmt.Sprintf("NumHash.get/returned-hash#%d-is-a-copy", nRet), instrPos(r), !alias,
+				"the hash returned on a cache hit does not share storage with the cached hash (fresh allocation filled by copy)")
+		}
 	}
 	// in update: Num ← param n, Hash.Write(param h), same lock region
 	{
@@ -251,12 +308,29 @@ func propC08(c *Ctx) {
 		okReset := len(over) > 0
 		for _, e := range over {
 			resetNum := false
-			reach(Site{e.To, -1}, func(in ssa.Instruction) bool {
+			isReset := func(in ssa.Instruction) bool {
 				if st, ok := in.(*ssa.Store); ok {
 					if f, _ := fieldOf(st.Addr); f == fNum {
 						if n, ok := constInt(st.Val); ok && n == 0 {
-							resetNum = true
+							return true
 						}
+					}
+				}
+				return false
+			}
+			nhReg := NewRegion(nhGet)
+			reach(Site{e.To, -1}, func(in ssa.Instruction) bool {
+				if isReset(in) {
+					resetNum = true
+				}
+				// a helper called on this arm that resets the pair on every path
+				if call, ok := in.(*ssa.Call); ok {
+					if h := regionCallee(call); h != nil && nhReg.site[h] == ssa.CallInstruction(call) {
+						allInstrs(h, func(x ssa.Instruction) {
+							if isReset(x) && passesBeforeReturn(x) {
+								resetNum = true
+							}
+						})
 					}
 				}
 				return false
@@ -270,46 +344,67 @@ func propC08(c *Ctx) {
 	{
 		// cache.get: seg.nreads++ precedes the cached return; pruneMaxRead precedes the look-up; pruneMaxRead deletes on nreads >= maxreads
 		prune := w.Fn("jrpc2", "(*cache).pruneMaxRead")
+		reg := NewRegion(get) // get with its single-use helpers inlined
 		var inc ssa.Instruction
-		allInstrs(get, func(in ssa.Instruction) {
+		var doneStores []ssa.Instruction
+		reg.AllInstrs(func(in ssa.Instruction) {
 			if st, ok := in.(*ssa.Store); ok {
-				if f, _ := fieldOf(st.Addr); f == fSegReads {
+				switch f, _ := fieldOf(st.Addr); {
+				case f == fSegReads:
 					inc = st
+				case fDone != nil && f == fDone:
+					if k, isC := st.Val.(*ssa.Const); isC && k.Value != nil && k.Value.String() == "true" {
+						doneStores = append(doneStores, st)
+					}
 				}
 			}
 		})
-		doneT, _ := func() (t, f []Edge) {
-			allInstrs(get, func(in ssa.Instruction) {
-				if u, ok := in.(*ssa.UnOp); ok && u.Op == token.MUL {
-					if ff, _ := fieldOf(u.X); fDone != nil && ff == fDone {
-						a, b := boolEdges(u)
-						t, f = append(t, a...), append(f, b...)
-					}
+		var doneT []Edge
+		allInstrs(get, func(in ssa.Instruction) {
+			if u, ok := in.(*ssa.UnOp); ok && u.Op == token.MUL {
+				if ff, _ := fieldOf(u.X); fDone != nil && ff == fDone {
+					a, _ := boolEdges(u)
+					doneT = append(doneT, a...)
 				}
-			})
-			return
-		}()
+			}
+		})
+		// a return of the segment's blocks is reached only through `done` being
+		// true or through the store that sets it (after a successful fetch)
+		cuts := newCuts().addEdges(doneT)
+		for _, st := range doneStores {
+			if l := reg.Lift(st); l != nil && passesOnSuccess(reg, st) {
+				cuts.addInstr(l)
+			}
+		}
 		n := 0
 		for _, r := range returnsOf(get) {
 			vals := returnValues(r)
-			if isLoadOfField(vals[0], fD) && guardedByEdges(get, r, doneT) {
-				n++
-				c.Check("R8.3", fmt.Sprintf("cache.get/cached-return#%d", n), instrPos(r), inc != nil && dominatesInstr(inc, r), "a cached segment is served only when done, and the read is counted first")
+			if !isLoadOfField(vals[0], fD) {
+				continue
 			}
+			n++
+			bypass, _ := reach(entrySite(get), isInstr(r), cuts)
+			c.Check("R8.3", fmt.Sprintf("cache.get/cached-return#%d", n), instrPos(r), !bypass && inc != nil && reg.Dominates(inc, r),
+				"a segment's blocks are returned only when it is done (or was just filled), and the read is counted first")
 		}
 		if n == 0 {
 			c.Violation("R8.3", "cache.get/cached-return", get.Pos(), "no cached return (segment.done) found")
 		}
 		var lookup ssa.Instruction
-		allInstrs(get, func(in ssa.Instruction) {
+		reg.AllInstrs(func(in ssa.Instruction) {
 			if lk, ok := in.(*ssa.Lookup); ok {
 				if _, isMap := lk.X.Type().Underlying().(*types.Map); isMap {
 					lookup = lk
 				}
 			}
 		})
-		pr := callsToFn(get, prune)
-		c.Check("R8.3", "cache.get/prune-before-lookup", get.Pos(), len(pr) == 1 && lookup != nil && dominatesInstr(pr[0], lookup), "segments whose budget is used up are evicted before the look-up")
+		var pr []ssa.Instruction
+		for _, ci := range reg.Calls() {
+			if call, ok := ci.(*ssa.Call); ok && staticCallee(call) == prune {
+				pr = append(pr, call)
+			}
+		}
+		c.Check("R8.3", "cache.get/prune-before-lookup", get.Pos(), len(pr) == 1 && lookup != nil && reg.Dominates(pr[0], lookup), "segments whose budget is used up are evicted before the look-up")
 		over, _ := cmpEdges(prune, func(b *ssa.BinOp) bool {
 			return b.Op == token.GEQ && isLoadOfField(b.X, fSegReads) && isLoadOfField(b.Y, fCMax)
 		})
@@ -329,4 +424,76 @@ func propC08(c *Ctx) {
 		}
 		c.Check("R8.3", "cache.pruneMaxRead/evicts-at-budget", prune.Pos(), okDel, "a segment with nreads >= maxreads is deleted from the map")
 	}
+}
+
+// passesOnSuccess: a store inside an inlined helper counts as executed at the
+// helper's call site for paths on which the helper reports success: every
+// path from the helper's entry to a return whose error result is nil passes
+// the store.
+func passesOnSuccess(reg *Region, st ssa.Instruction) bool {
+	ch := reg.chain(st)
+	for k := 1; k < len(ch); k++ {
+		fn := ch[k].Parent()
+		cuts := newCuts().addInstr(ch[k])
+		hit, _ := reach(entrySite(fn), func(in ssa.Instruction) bool {
+			r, ok := in.(*ssa.Return)
+			if !ok {
+				return false
+			}
+			vals := returnValues(r)
+			if len(vals) == 0 {
+				return true
+			}
+			last := vals[len(vals)-1]
+			if isErrorType(last.Type()) {
+				return isNilConst(last) // a success return reached without the store
+			}
+			return true
+		}, cuts)
+		if hit {
+			return false
+		}
+	}
+	return true
+}
+
+// sliceAliases: may the slice value v share its backing array with a value
+// satisfying isRoot?  make/Clone results and nil are fresh; re-slicing and
+// append onto a value keep its array (append may, when capacity allows).
+func sliceAliases(v ssa.Value, isRoot func(ssa.Value) bool, d int) bool {
+	v = stripConv(v)
+	if isRoot(v) {
+		return true
+	}
+	if d > 8 {
+		return true
+	}
+	switch x := v.(type) {
+	case *ssa.Slice:
+		return sliceAliases(x.X, isRoot, d+1)
+	case *ssa.Phi:
+		for _, e := range x.Edges {
+			if sliceAliases(e, isRoot, d+1) {
+				return true
+			}
+		}
+		return false
+	case *ssa.Call:
+		switch calleeName(x) {
+		case "builtin append":
+			return sliceAliases(x.Call.Args[0], isRoot, d+1)
+		case "bytes.Clone", "slices.Clone":
+			return false
+		}
+		return false
+	case *ssa.MakeSlice, *ssa.Const, *ssa.Alloc:
+		return false
+	case *ssa.UnOp:
+		if al, ok := x.X.(*ssa.Alloc); ok {
+			if cv := cellValue(al); cv != nil {
+				return sliceAliases(cv, isRoot, d+1)
+			}
+		}
+	}
+	return false
 }
